@@ -115,8 +115,9 @@ def run_limited(cmd, cwd, timeout, mem_cap, env=ENV):
             "peak_rss": state["peak"]}
 
 
-CHECK_RE = re.compile(r"^Check (\d+): (.+)\n\s+- Status: (\S+)\n\s+- Description: \"(.*)\"(?:\n\s+- Location: (.*))?",
-                      re.M)
+CHECK_RE = re.compile(
+    r"^Check (\d+): ([^\n]+)\n\s+- Status: (\S+)\n\s+- Description: \"(.*?)\"(?:\n\s+- Location: ([^\n]*))?\n(?=\n|Check |\Z|\S)",
+    re.M | re.S)
 
 
 def parse_kani(out):
@@ -152,6 +153,10 @@ def classify(ob, res):
         tail = "\n".join(res["out"].strip().split("\n")[-15:])
         return "undecided", "no verdict from Kani (build error / lost anchor / crash):\n" + tail
     failed = [c for c in k["checks"] if c["status"] == "FAILURE"]
+    if k["verdict"] == "FAILED" and not failed:
+        # fall back to Kani's summary lines ("Failed Checks: <description>\n File: ...")
+        for m in re.finditer(r"^Failed Checks: (.*?)\n File: ([^\n]*)", res["out"], re.M | re.S):
+            failed.append({"id": "summary", "status": "FAILURE", "desc": m.group(1), "loc": m.group(2)})
     if k["verdict"] == "SUCCESSFUL":
         if k["n_checks"] == 0:
             return "undecided", "vacuity alarm: zero checks generated"
